@@ -265,6 +265,7 @@ void client_fn(void *arg) {
     Ctx &c = *ca->c;
     for (const sim::Op &op : c.plan->ops) {
         if (op.thr != ca->idx) continue;
+        if (c.plan->get("poison_errors", 0)) hx::poison_errors(c.plan->seed, sim::seq());
         switch (op.kind) {
             case OP_SCHED_NOW: do_schedule(c, c.tasks[(size_t)op.a % c.tasks.size()], true, 0); break;
             case OP_SCHED_FUT: do_schedule(c, c.tasks[(size_t)op.a % c.tasks.size()], false, (int)op.b); break;
@@ -379,6 +380,7 @@ RunInfo run(const sim::Plan &plan) {
     auto run_main_ops = [&]() {
         for (const sim::Op &op : plan.ops) {
             if (op.thr != 0) continue;
+            if (plan.get("poison_errors", 0)) hx::poison_errors(plan.seed, sim::seq());
             switch (op.kind) {
                 case OP_SCHED_NOW: do_schedule(c, c.tasks[(size_t)op.a % c.tasks.size()], true, 0); break;
                 case OP_SCHED_FUT: do_schedule(c, c.tasks[(size_t)op.a % c.tasks.size()], false, (int)op.b); break;
